@@ -24,15 +24,15 @@ Definition env_rel (G : ghost) (env : menv) (r : senv) : Prop :=
             | None => slookup r x = None
             end.
 
-Definition fields_rel (G : ghost) (defs0 : list (string * tm)) (r : senv)
-           (fl : list (string * loc)) (defs : list (string * tm)) : Prop :=
-  Forall2 (fun a b => fst a = fst b /\ nth_error G (snd a) = Some (snd b, ERec defs0 r)) fl defs.
+Definition fields_rel (G : ghost) (fl : rfields) (fs : sfields) : Prop :=
+  Forall2 (fun a b => fst a = fst b /\ snd (snd a) = snd (snd b) /\
+                      nth_error G (fst (snd a)) = Some (fst (snd b))) fl fs.
 
 Inductive val_rel (G : ghost) : clos -> sval -> Prop :=
 | VR_num n env : val_rel G (CTm (Num n), env) (VNum n)
 | VR_bool b env : val_rel G (CTm (Bool b), env) (VBool b)
 | VR_lam x b env r : env_rel G env r -> val_rel G (CTm (Lam x b), env) (VClo x b r)
-| VR_rec fl env defs r : fields_rel G defs r fl defs -> val_rel G (CRecV fl, env) (VRec defs r).
+| VR_rec fl env fs : fields_rel G fl fs -> val_rel G (CRecV fl, env) (VRec fs).
 
 Inductive ctrl_rel (G : ghost) : clos -> sctrl -> Prop :=
 | CR_tm t env r : env_rel G env r -> ctrl_rel G (CTm t, env) (SC t r)
@@ -46,7 +46,8 @@ Inductive frame_rel (G : ghost) : frame -> sframe -> Prop :=
 | FR_if t envt rt e enve re :
     env_rel G envt rt -> env_rel G enve re ->
     frame_rel G (FIf (CTm t, envt) (CTm e, enve)) (SIf t rt e re)
-| FR_proj f : frame_rel G (FProj f) (SProj f).
+| FR_proj f : frame_rel G (FProj f) (SProj f)
+| FR_seq b env r : env_rel G env r -> frame_rel G (FSeq (CTm b, env)) (SSeq b r).
 
 (* every cell stands for its ghost closure; an evaluated cell holds the value of that closure *)
 Definition cell_ok (G : ghost) (l : loc) (c : cell) : Prop :=
@@ -93,6 +94,9 @@ Proof. intros H F. induction F; constructor; auto. Qed.
 Lemma ext_refl G : ext G G.
 Proof. exists []. now rewrite app_nil_r. Qed.
 
+Lemma ext_snoc G X : ext G (G ++ X).
+Proof. now exists X. Qed.
+
 Lemma ext_trans G1 G2 G3 : ext G1 G2 -> ext G2 G3 -> ext G1 G3.
 Proof. intros [X ->] [Y ->]. exists (X ++ Y). now rewrite app_assoc. Qed.
 
@@ -109,7 +113,7 @@ Lemma val_rel_ext G G' w v : ext G G' -> val_rel G w v -> val_rel G' w v.
 Proof.
   intros E H. destruct H; constructor; eauto using env_rel_ext.
   unfold fields_rel in *. eapply Forall2_weaken; [|eassumption].
-  intros a b [H1 H2]. split; auto. eapply ext_nth; eauto.
+  intros a b (H1 & H2 & H3). repeat split; auto. eapply ext_nth; eauto.
 Qed.
 
 Lemma ctrl_rel_ext G G' w sc : ext G G' -> ctrl_rel G w sc -> ctrl_rel G' w sc.
@@ -386,26 +390,153 @@ Qed.
 
 (* ---------------------------------------------------------------- returning a value *)
 
-Lemma binop_rel G o a va b vb :
-  val_rel G a va -> val_rel G b vb ->
-  match binop_eval o a b with
-  | Some r => exists vr, sbinop o va vb = Val vr /\ val_rel G r vr
-  | None => sbinop o va vb = Err ETypeErr
+Lemma fields_assoc G f : forall fl fs,
+  fields_rel G fl fs ->
+  match assoc fl f with
+  | Some (l, b) => exists c, assoc fs f = Some (c, b) /\ nth_error G l = Some c
+  | None => assoc fs f = None
   end.
 Proof.
-  intros Ha Hb. destruct Ha, Hb; cbn; auto.
-  destruct o; eexists; split; try reflexivity; constructor.
+  induction 1 as [|[f1 [l1 b1]] [f2 [c2 b2]] fl fs (H1 & H2 & H3) F IH]; cbn in *; auto.
+  subst f2 b2. destruct (String.eqb f f1); eauto.
 Qed.
 
-Lemma fields_assoc G defs0 r f : forall fl defs,
-  fields_rel G defs0 r fl defs ->
-  match assoc fl f with
-  | Some l => exists ef, assoc defs f = Some ef /\ nth_error G l = Some (ef, ERec defs0 r)
-  | None => assoc defs f = None
+Lemma fields_has_key G fl fs f : fields_rel G fl fs -> has_key fl f = has_key fs f.
+Proof.
+  intros F. pose proof (fields_assoc G f fl fs F) as A. unfold has_key.
+  destruct (assoc fl f) as [[l b]|].
+  - destruct A as (c & -> & _). reflexivity.
+  - now rewrite A.
+Qed.
+
+Lemma fields_any_rev G fl fs : fields_rel G fl fs -> any_rev fl = sany_rev fs.
+Proof.
+  unfold any_rev, sany_rev. induction 1 as [|a b fl fs (H1 & H2 & H3) F IH]; cbn; auto.
+  f_equal; [exact H2 | exact IH].
+Qed.
+
+Lemma left_part_rel G fl2 fs2 : fields_rel G fl2 fs2 -> forall fl1 fs1,
+  fields_rel G fl1 fs1 -> fields_rel G (left_part fl1 fl2) (left_part fs1 fs2).
+Proof.
+  intros F2. induction 1 as [|a b fl1 fs1 (H1 & H2 & H3) F IH]; cbn; [constructor|].
+  rewrite <- H1, (fields_has_key G fl2 fs2 (fst a) F2).
+  destruct (has_key fs2 (fst a)); cbn; auto. constructor; auto.
+Qed.
+
+(* the fields present on both sides *)
+Definition center_rel (G : ghost) (a : string * ((loc * bool) * (loc * bool)))
+           (b : string * ((sclos * bool) * (sclos * bool))) : Prop :=
+  fst a = fst b /\
+  nth_error G (fst (fst (snd a))) = Some (fst (fst (snd b))) /\
+  nth_error G (fst (snd (snd a))) = Some (fst (snd (snd b))).
+
+Lemma center_part_rel G fl2 fs2 : fields_rel G fl2 fs2 -> forall fl1 fs1,
+  fields_rel G fl1 fs1 -> Forall2 (center_rel G) (center_part fl1 fl2) (center_part fs1 fs2).
+Proof.
+  intros F2. induction 1 as [|[f1 [l1 b1]] [f1' [c1 b1']] fl1 fs1 (H1 & H2 & H3) F IH]; cbn in *; [constructor|].
+  subst f1' b1'. pose proof (fields_assoc G f1 fl2 fs2 F2) as A.
+  destruct (assoc fl2 f1) as [[l2 b2]|].
+  - destruct A as (c2 & -> & G2). constructor; auto. repeat split; auto.
+  - rewrite A. auto.
+Qed.
+
+Definition center_clos (b : string * ((sclos * bool) * (sclos * bool))) : sclos :=
+  smerge_clos (fst (fst (snd b))) (fst (snd (snd b))).
+
+Lemma env_rel_merge G l1 l2 c1 c2 :
+  nth_error G l1 = Some c1 -> nth_error G l2 = Some c2 ->
+  env_rel G [("%1", l1); ("%2", l2)] (snd (smerge_clos c1 c2)).
+Proof.
+  intros H1 H2 x. destruct c1 as [e1 r1], c2 as [e2 r2]. cbn.
+  destruct (String.eqb x "%1"); eauto. destruct (String.eqb x "%2"); eauto.
+Qed.
+
+(* a copy (with the state reset) of a sound cell is a sound cell for the same ghost closure *)
+Lemma copy_cell_cell_ok G G' l p c gc :
+  ext G G' -> cell_ok G l c -> nth_error G l = Some gc -> nth_error G' p = Some gc ->
+  cell_ok G' p (copy_cell false c).
+Proof.
+  intros X (t & env & r & O1 & O2 & O3 & O4) GL GP. rewrite GL in O2. inversion O2; subst gc.
+  exists t, env, r. unfold copy_cell. cbn. repeat split; eauto using env_rel_ext.
+  destruct (st c); auto. destruct O4 as (n & v & E & VR). eauto using val_rel_ext.
+Qed.
+
+Definition center_triple (b : string * ((sclos * bool) * (sclos * bool))) : list sclos :=
+  [fst (fst (snd b)); fst (snd (snd b)); center_clos b].
+
+(* the thunks allocated for the center fields, against their ghost closures *)
+Lemma merge_center_rel (G G' : ghost) h :
+  heap_ok G h -> ext G G' ->
+  forall cs scs,
+  Forall2 (center_rel G) cs scs ->
+  forall base cells cfl,
+  merge_center false h base cs = (cells, cfl) ->
+  (forall i x, nth_error (flat_map center_triple scs) i = Some x -> nth_error G' (base + i) = Some x) ->
+  length cells = length (flat_map center_triple scs) /\
+  fields_rel G' cfl (map (fun b => (fst b, (center_clos b, false))) scs) /\
+  (forall i c, nth_error cells i = Some c -> cell_ok G' (base + i) c).
+Proof.
+  intros HO EX.
+  induction 1 as [|[f [p1 p2]] b cs scs (H1 & H2 & H3) F IH]; intros base cells cfl E NX.
+  - inversion E; subst. repeat split; auto; [constructor|]. intros [|i] c X; discriminate.
+  - rewrite merge_center_cons in E. cbn [fst snd] in H1, H2, H3.
+    destruct (heap_ok_nth _ _ _ _ HO H2) as (c1 & E1). destruct (heap_ok_nth _ _ _ _ HO H3) as (c2 & E2).
+    rewrite E1, E2 in E.
+    destruct (merge_center false h (3 + base) cs) as [cells' cfl'] eqn:E'. inversion E; subst. clear E.
+    destruct (IH (3 + base) cells' cfl' E') as (L & FR & CO).
+    { intros i x Ex. specialize (NX (3 + i) x Ex). now replace (base + (3 + i)) with (3 + base + i) in NX by lia. }
+    pose proof (NX 0 _ eq_refl) as N0. pose proof (NX 1 _ eq_refl) as N1. pose proof (NX 2 _ eq_refl) as N2.
+    rewrite Nat.add_0_r in N0. replace (base + 1) with (S base) in N1 by lia.
+    replace (base + 2) with (2 + base) in N2 by lia.
+    repeat split.
+    + cbn. now rewrite L.
+    + cbn. constructor; [cbn; repeat split; auto|exact FR].
+    + intros [|[|[|i]]] c X; cbn in X.
+      * inversion X; subst c. rewrite Nat.add_0_r.
+        exact (copy_cell_cell_ok G G' (fst p1) base c1 _ EX (proj2 HO _ _ E1) H2 N0).
+      * inversion X; subst c. replace (base + 1) with (S base) by lia.
+        exact (copy_cell_cell_ok G G' (fst p2) (S base) c2 _ EX (proj2 HO _ _ E2) H3 N1).
+      * inversion X; subst c. replace (base + 2) with (2 + base) by lia.
+        exists merge_body, [("%1", base); ("%2", S base)], (snd (center_clos b)). cbn [orig new_cell st cur].
+        repeat split; auto. now apply env_rel_merge.
+      * replace (base + S (S (S i))) with (3 + base + i) by lia. apply (CO i c X).
+Qed.
+
+Lemma binop_rel G h o a va b vb :
+  heap_ok G h -> val_rel G a va -> val_rel G b vb ->
+  match binop_eval false o a b h with
+  | BVal r cells => exists X vr, sbinop o va vb = Val vr /\ val_rel (G ++ X) r vr /\ heap_ok (G ++ X) (h ++ cells)
+  | BErr e => sbinop o va vb = Err e
   end.
 Proof.
-  induction 1 as [|[f1 l1] [f2 e2] fl defs [H1 H2] F IH]; cbn in *; auto.
-  subst f2. destruct (String.eqb f f1); eauto.
+  intros HO Ha Hb.
+  assert (NIL : forall r vr, val_rel G r vr -> forall v0, v0 = Val vr ->
+            exists X vr', v0 = Val vr' /\ val_rel (G ++ X) r vr' /\ heap_ok (G ++ X) (h ++ [])).
+  { intros r vr R v0 ->. exists [], vr. rewrite !app_nil_r. auto. }
+  destruct Ha as [x ea|x ea|x bx ea ra ERa|fl1 ea fs1 F1], Hb as [y eb|y eb|y by_ eb rb ERb|fl2 eb fs2 F2];
+    destruct o; cbn; auto;
+    try (eapply NIL; [constructor|reflexivity]).
+  - destruct (Z.eqb x y); auto. eapply NIL; [constructor|reflexivity].
+  - destruct (Bool.eqb x y); auto. eapply NIL; [constructor|reflexivity].
+  - (* record & record *)
+    rewrite (fields_any_rev _ _ _ F1), (fields_any_rev _ _ _ F2).
+    destruct (sany_rev fs1 || sany_rev fs2); auto.
+    destruct (merge_center false h (length h) (center_part fl1 fl2)) as [cells cfl] eqn:EM.
+    set (scs := center_part fs1 fs2).
+    set (X := flat_map center_triple scs).
+    assert (EX : ext G (G ++ X)) by (now exists X).
+    pose proof (center_part_rel G fl2 fs2 F2 fl1 fs1 F1) as CR.
+    destruct (merge_center_rel G (G ++ X) h HO EX _ _ CR (length h) cells cfl EM) as (L & FR & CO).
+    { intros i x0 Ex. rewrite <- (proj1 HO). rewrite nth_error_app2 by lia.
+      now replace (length G + i - length G) with i by lia. }
+    exists X, (VRec (smerge_fields fs1 fs2)). split; auto. split.
+    + constructor. unfold fields_rel, smerge_fields. apply Forall2_app; [|apply Forall2_app].
+      * eapply Forall2_weaken; [|apply (left_part_rel G fl2 fs2 F2 fl1 fs1 F1)].
+        intros p q (Q1 & Q2 & Q3). repeat split; eauto using ext_nth.
+      * exact FR.
+      * eapply Forall2_weaken; [|apply (left_part_rel G fl1 fs1 F1 fl2 fs2 F2)].
+        intros p q (Q1 & Q2 & Q3). repeat split; eauto using ext_nth.
+    + apply heap_ok_alloc; auto.
 Qed.
 
 Lemma env_rel_ptr G l ef re :
@@ -420,13 +551,13 @@ Proof. intros H. inversion H; subst. eauto. Qed.
 
 Lemma ret_inv root G c v K c' :
   inv root G c (SV v) K -> val_rel G (ctrl c) v -> ret c = Next c' ->
-  exists sc' K', inv root G c' sc' K'.
+  exists G' sc' K', ext G G' /\ inv root G' c' sc' K'.
 Proof.
   intros I VR E.
   pose proof (ret_bh_inv _ _ (inv_bh _ _ _ _ _ I) E) as BH.
-  unfold ret in E. destruct (stack c) as [|fr S0] eqn:ES; try discriminate.
+  unfold ret_gen in E. destruct (stack c) as [|fr S0] eqn:ES; try discriminate.
   destruct (stack_cons_inv _ _ _ _ ltac:(rewrite <- ES; apply (inv_stack _ _ _ _ _ I))) as (k & K0 & -> & FR & FS).
-  destruct fr as [a|l|o c2|o v1c|ct ce|f]; try discriminate.
+  destruct fr as [a|l|o c2|o v1c|ct ce|f|sq]; try discriminate.
   - (* update frame *)
     inversion E; subst c'; clear E. inversion FR; subst k.
     pose proof (inv_obls _ _ _ _ _ I) as OB. rewrite ES in OB. cbn in OB.
@@ -436,7 +567,7 @@ Proof.
     destruct B as (cl & Ecl & Bst).
     destruct (proj2 (inv_heap _ _ _ _ _ I) _ _ Ecl) as (t' & envl & r' & O1 & O2 & O3 & O4).
     rewrite GL in O2. inversion O2; subst t' r'.
-    exists (SV v), K0. constructor; cbn.
+    exists G, (SV v), K0. split; [apply ext_refl|]. constructor; cbn.
     + eapply heap_ok_upd; eauto using (inv_heap _ _ _ _ _ I).
       exists t, envl, r. cbn. repeat split; auto.
       destruct (proj2 LK 0) as (m & Em); [discriminate|].
@@ -448,7 +579,7 @@ Proof.
     + eapply linked_ext; [| |apply (inv_root _ _ _ _ _ I)]; reflexivity.
   - (* first operand evaluated: evaluate the second *)
     inversion E; subst c'; clear E. inversion FR; subst.
-    exists (SC b r), ([SOp2Second o v] ++ K0).
+    exists G, (SC b r), ([SOp2Second o v] ++ K0). split; [apply ext_refl|].
     apply (inv_pure root G c (SV v) (SOp2First o b r :: K0) G _ (SC b r)
              [FOp2First o (CTm b, env)] [SOp2First o b r] [FOp2Second o (ctrl c)] [SOp2Second o v] S0 K0);
       auto using ext_refl.
@@ -458,13 +589,13 @@ Proof.
     + eapply linked_ext; [| |apply linked_refl]; reflexivity.
   - (* both operands evaluated *)
     inversion FR; subst.
-    match goal with H : val_rel G v1c v0 |- _ => pose proof (binop_rel G o v1c v0 (ctrl c) v H VR) as BR end.
-    destruct (binop_eval o v1c (ctrl c)) as [rr|]; inversion E; subst c'; clear E.
-    destruct BR as (vr & SB & VRr).
-    exists (SV vr), ([] ++ K0).
-    apply (inv_pure root G c (SV v) (SOp2Second o v0 :: K0) G _ (SV vr)
-             [FOp2Second o v1c] [SOp2Second o v0] [] [] S0 K0); auto using ext_refl.
-    + cbn. apply (inv_heap _ _ _ _ _ I).
+    match goal with H : val_rel G v1c ?v0 |- _ =>
+      pose proof (binop_rel G (hp c) o v1c v0 (ctrl c) v (inv_heap _ _ _ _ _ I) H VR) as BR; rename v0 into va end.
+    destruct (binop_eval false o v1c (ctrl c) (hp c)) as [rr cells|e]; inversion E; subst c'; clear E.
+    destruct BR as (X & vr & SB & VRr & HOr).
+    exists (G ++ X), (SV vr), ([] ++ K0). split; [apply ext_snoc|].
+    apply (inv_pure root G c (SV v) (SOp2Second o va :: K0) (G ++ X) _ (SV vr)
+             [FOp2Second o v1c] [SOp2Second o va] [] [] S0 K0); auto using ext_snoc.
     + cbn. now constructor.
     + eapply linked_ext; [| |apply linked_refl]; [reflexivity|].
       intros n. unfold sden. cbn. now rewrite SB.
@@ -474,13 +605,13 @@ Proof.
     destruct (ctrl c) as [cc ce'] eqn:ECC. cbn in EC. subst cc.
     inversion VR; subst.
     destruct b; inversion E; subst c'; clear E.
-    + exists (SC t rt), ([] ++ K0).
+    + exists G, (SC t rt), ([] ++ K0). split; [apply ext_refl|].
       apply (inv_pure root G c (SV (VBool true)) (SIf t rt e re :: K0) G _ (SC t rt)
                [FIf (CTm t, envt) (CTm e, enve)] [SIf t rt e re] [] [] S0 K0); auto using ext_refl.
       * cbn. apply (inv_heap _ _ _ _ _ I).
       * cbn. now constructor.
       * eapply linked_ext; [| |apply linked_refl]; reflexivity.
-    + exists (SC e re), ([] ++ K0).
+    + exists G, (SC e re), ([] ++ K0). split; [apply ext_refl|].
       apply (inv_pure root G c (SV (VBool false)) (SIf t rt e re :: K0) G _ (SC e re)
                [FIf (CTm t, envt) (CTm e, enve)] [SIf t rt e re] [] [] S0 K0); auto using ext_refl.
       * cbn. apply (inv_heap _ _ _ _ _ I).
@@ -491,17 +622,25 @@ Proof.
     destruct (fst (ctrl c)) as [|fl] eqn:EC; try discriminate.
     destruct (ctrl c) as [cc ce'] eqn:ECC. cbn in EC. subst cc.
     inversion VR; subst.
-    match goal with H : fields_rel G defs r fl defs |- _ => pose proof (fields_assoc G defs r f fl defs H) as FA end.
-    destruct (assoc fl f) as [l|]; inversion E; subst c'; clear E.
-    destruct FA as (ef & A1 & A2).
-    exists (SC (Var "%") (ECons "%" ef (ERec defs r) ENil)), ([] ++ K0).
-    apply (inv_pure root G c (SV (VRec defs r)) (SProj f :: K0) G _ _
+    match goal with H : fields_rel G fl ?fs0 |- _ => pose proof (fields_assoc G f fl fs0 H) as FA; rename fs0 into fs end.
+    destruct (assoc fl f) as [[l bb]|]; inversion E; subst c'; clear E.
+    destruct FA as ([ef re] & A1 & A2).
+    exists G, (SC (Var "%") (ECons "%" ef re ENil)), ([] ++ K0). split; [apply ext_refl|].
+    apply (inv_pure root G c (SV (VRec fs)) (SProj f :: K0) G _ _
              [FProj f] [SProj f] [] [] S0 K0); auto using ext_refl.
     + cbn. apply (inv_heap _ _ _ _ _ I).
     + cbn. constructor. now apply env_rel_ptr.
     + eapply linked_ext; [| |apply linked_refl]; [reflexivity|].
       intros n. unfold sden. cbn. destruct n; auto. cbn. rewrite A1. cbn.
       now rewrite !bind_val.
+  - (* seq: the value is dropped *)
+    inversion E; subst c'; clear E. inversion FR; subst.
+    exists G, (SC b r), ([] ++ K0). split; [apply ext_refl|].
+    apply (inv_pure root G c (SV v) (SSeq b r :: K0) G _ (SC b r)
+             [FSeq (CTm b, env)] [SSeq b r] [] [] S0 K0); auto using ext_refl.
+    + cbn. apply (inv_heap _ _ _ _ _ I).
+    + cbn. now constructor.
+    + eapply linked_ext; [| |apply linked_refl]; reflexivity.
 Qed.
 
 (* ---------------------------------------------------------------- links of the direct steps *)
@@ -574,9 +713,9 @@ Qed.
 Lemma seval_proj n e f r :
   seval (S n) (Proj e f) r =
   bind (seval n e r) (fun ve => match ve with
-                                | VRec defs rr =>
-                                    match assoc defs f with
-                                    | Some ef => seval n ef (ERec defs rr)
+                                | VRec fs =>
+                                    match assoc fs f with
+                                    | Some (cf, _) => seval n (fst cf) (snd cf)
                                     | None => Err EFieldMissing
                                     end
                                 | _ => Err ETypeErr end).
@@ -587,20 +726,34 @@ Proof.
   split.
   - intros n. rewrite sden_SC_nil. destruct n; [apply approx_oof|]. rewrite seval_proj.
     unfold sden. cbn [sctrl_eval sapply]. apply approx_bind; [apply seval_approx; lia|].
-    intros [| | |defs rr]; try apply approx_refl. destruct (assoc defs f); try apply approx_refl.
+    intros [| | |fs]; try apply approx_refl. destruct (assoc fs f) as [[cf bb]|]; try apply approx_refl.
     rewrite bind_val'. apply approx_refl.
   - intros n H. destruct n as [|n]; [exfalso; apply H; reflexivity|].
     exists (S (S n)). rewrite sden_SC_nil, seval_proj. unfold sden in *. cbn [sctrl_eval sapply] in *.
-    destruct (seval (S n) e r) as [[| | |defs rr]| |]; cbn [bind] in *; auto.
-    destruct (assoc defs f) as [ef|]; auto. rewrite bind_val' in *.
+    destruct (seval (S n) e r) as [[| | |fs]| |]; cbn [bind] in *; auto.
+    destruct (assoc fs f) as [[cf bb]|]; auto. rewrite bind_val' in *.
     apply seval_mono; auto.
 Qed.
 
-Lemma link_rec fs r : linked (sden (SC (Rec fs) r) []) (sden (SV (VRec fs r)) []).
+Lemma link_rec fs r : linked (sden (SC (Rec fs) r) []) (sden (SV (VRec (fields_of_lit fs r))) []).
 Proof.
   split.
   - intros n. rewrite sden_SC_nil. destruct n; [apply approx_oof|apply approx_refl].
   - intros n _. exists 1. reflexivity.
+Qed.
+
+Lemma seval_seq n a b r :
+  seval (S n) (Seq a b) r = bind (seval n a r) (fun _ => seval n b r).
+Proof. reflexivity. Qed.
+
+Lemma link_seq a b r : linked (sden (SC (Seq a b) r) []) (sden (SC a r) [SSeq b r]).
+Proof.
+  split.
+  - intros n. rewrite sden_SC_nil. destruct n; [apply approx_oof|]. rewrite seval_seq.
+    unfold sden. cbn [sctrl_eval sapply]. apply approx_bind; [apply seval_approx; lia|].
+    intros _. rewrite bind_val'. apply seval_approx. lia.
+  - intros n _. exists (S n). rewrite sden_SC_nil, seval_seq. unfold sden. cbn [sctrl_eval sapply].
+    destruct (seval n a r); cbn [bind]; auto. now rewrite bind_val'.
 Qed.
 
 Lemma link_lam_apply x b r a ra :
@@ -628,21 +781,39 @@ Proof.
   induction l1 as [|[y a] l1 IH]; cbn; auto. destruct (String.eqb x y); auto.
 Qed.
 
-Lemma env_rel_rec G env r fs fl :
-  env_rel G env r -> fields_rel G fs r fl fs -> env_rel G (fl ++ env) (ERec fs r).
+Lemma assoc_map_snd {A B} (g : A -> B) (l : list (string * A)) y :
+  assoc (map (fun fe => (fst fe, g (snd fe))) l) y = option_map g (assoc l y).
 Proof.
-  intros H F y. rewrite assoc_app. pose proof (fields_assoc G fs r y fl fs F) as FA.
-  cbn. destruct (assoc fl y) as [l|].
-  - destruct FA as (ef & A1 & A2). rewrite A1. eauto.
-  - rewrite FA. apply H.
+  induction l as [|[x a] l IH]; cbn; auto. destruct (String.eqb y x); auto.
+Qed.
+
+Lemma assoc_locs_of (fl : rfields) y : assoc (locs_of fl) y = option_map fst (assoc fl y).
+Proof. apply (assoc_map_snd fst fl y). Qed.
+
+Lemma assoc_fields_of_lit fs r y :
+  assoc (fields_of_lit fs r) y =
+  option_map (fun e => ((e, ERec fs r), fvb [] (map fst fs) e)) (assoc fs y).
+Proof. apply (assoc_map_snd (fun e => ((e, ERec fs r), fvb [] (map fst fs) e)) fs y). Qed.
+
+Lemma env_rel_rec G env r fs fl :
+  env_rel G env r -> fields_rel G fl (fields_of_lit fs r) -> env_rel G (locs_of fl ++ env) (ERec fs r).
+Proof.
+  intros H F y. rewrite assoc_app, assoc_locs_of.
+  pose proof (fields_assoc G y fl _ F) as FA. rewrite assoc_fields_of_lit in FA.
+  cbn [slookup]. destruct (assoc fl y) as [[l b]|]; cbn [option_map fst].
+  - destruct FA as (c & A1 & A2). destruct (assoc fs y) as [e|]; cbn in A1; [|discriminate].
+    inversion A1; subst. eauto.
+  - destruct (assoc fs y) as [e|]; cbn in FA; [discriminate|]. apply H.
 Qed.
 
 Lemma fields_rel_alloc (G' : ghost) fs0 r : forall fs base,
   (forall i fe, nth_error fs i = Some fe -> nth_error G' (base + i) = Some (snd fe, ERec fs0 r)) ->
-  fields_rel G' fs0 r (combine (map fst fs) (seq base (length fs))) fs.
+  fields_rel G'
+    (combine (map fst fs) (combine (seq base (length fs)) (map (fun fe => fvb [] (map fst fs0) (snd fe)) fs)))
+    (map (fun fe => (fst fe, ((snd fe, ERec fs0 r), fvb [] (map fst fs0) (snd fe)))) fs).
 Proof.
   induction fs as [|fe fs IH]; intros base H; cbn; constructor.
-  - split; auto. cbn. specialize (H 0 fe eq_refl). now rewrite Nat.add_0_r in H.
+  - cbn. repeat split; auto. specialize (H 0 fe eq_refl). now rewrite Nat.add_0_r in H.
   - apply IH. intros i fe' E. specialize (H (S i) fe' E). now rewrite Nat.add_succ_r in H.
 Qed.
 
@@ -666,8 +837,6 @@ Proof.
   rewrite Nat.add_0_r, <- (proj1 H). now rewrite nth_error_app2, Nat.sub_diag by lia.
 Qed.
 
-Lemma ext_snoc G X : ext G (G ++ X).
-Proof. now exists X. Qed.
 
 Theorem step_inv root G c sc K c' :
   inv root G c sc K -> step c = Next c' ->
@@ -678,20 +847,20 @@ Proof.
   assert (RET : is_value (ctrl c) = true -> ret c = Next c' ->
                 exists G' sc' K', ext G G' /\ inv root G' c' sc' K').
   { intros V R. destruct (inv_norm _ _ _ _ _ I V) as (v & VR & I').
-    destruct (ret_inv _ _ _ _ _ _ I' VR R) as (sc' & K' & I''). exists G, sc', K'. split; auto using ext_refl. }
+    exact (ret_inv _ _ _ _ _ _ I' VR R). }
   pose proof (inv_heap _ _ _ _ _ I) as HO. pose proof (proj1 HO) as LG.
-  unfold step in E. destruct (ctrl c) as [code env] eqn:EC. cbn [fst snd] in E.
+  unfold step_gen in E. destruct (ctrl c) as [code env] eqn:EC. cbn [fst snd] in E.
   destruct code as [t|fl]; [|apply RET; auto].
   destruct t.
   - (* Var *)
     destruct (assoc env x) as [l|] eqn:EA; try discriminate.
     destruct (enter_inv _ _ _ _ _ _ _ _ _ I EC EA E) as (sc' & K' & I'). exists G, sc', K'. split; auto using ext_refl.
   - (* Lam *)
-    destruct (stack c) as [|[a| | | | |] s] eqn:ES; try (apply RET; auto; fail).
+    destruct (stack c) as [|[a| | | | | |] s] eqn:ES; try (apply RET; auto; fail).
     destruct (inv_norm _ _ _ _ _ I ltac:(rewrite EC; reflexivity)) as (v & VR & I').
     rewrite EC in VR. inversion VR as [| |x0 b0 env0 r ER|]; subst.
     destruct (stack_cons_inv _ _ _ _ ltac:(rewrite <- ES; apply (inv_stack _ _ _ _ _ I'))) as (k & K0 & -> & FR & FS).
-    inversion FR as [a0 enva ra ERa| | | | |]; subst. inversion E; subst c'; clear E.
+    inversion FR as [a0 enva ra ERa| | | | | |]; subst. inversion E; subst c'; clear E.
     assert (ERx : env_rel (G ++ [(a0, ra)]) ((x, length (hp c)) :: env) (ECons x a0 ra r)).
     { apply env_rel_cons; [eapply env_rel_ext; [apply ext_snoc|auto]|].
       rewrite <- LG. now rewrite nth_error_app2, Nat.sub_diag by lia. }
@@ -781,16 +950,17 @@ Proof.
   - (* Rec *)
     destruct (ctrl_tm_inv _ _ _ _ ltac:(rewrite <- EC; apply (inv_ctrl _ _ _ _ _ I)) eq_refl) as (r & -> & ER).
     unfold alloc_rec in E. inversion E; subst c'; clear E.
-    set (fl := combine (map fst fs) (seq (length (hp c)) (length fs))).
+    set (fl := combine (map fst fs) (combine (seq (length (hp c)) (length fs))
+                                             (map (fun fe => fvb [] (map fst fs) (snd fe)) fs))).
     set (X := map (fun fe : string * tm => (snd fe, ERec fs r)) fs).
     assert (NX : forall i fe, nth_error fs i = Some fe ->
                               nth_error (G ++ X) (length (hp c) + i) = Some (snd fe, ERec fs r)).
     { intros i fe Ei. rewrite <- LG. rewrite nth_error_app2 by lia.
       replace (length G + i - length G) with i by lia. unfold X. now rewrite nth_error_map, Ei. }
-    assert (FRl : fields_rel (G ++ X) fs r fl fs) by (apply fields_rel_alloc; exact NX).
-    assert (ER' : env_rel (G ++ X) (fl ++ env) (ERec fs r)).
+    assert (FRl : fields_rel (G ++ X) fl (fields_of_lit fs r)) by (apply fields_rel_alloc; exact NX).
+    assert (ER' : env_rel (G ++ X) (locs_of fl ++ env) (ERec fs r)).
     { apply env_rel_rec; auto. eapply env_rel_ext; [apply ext_snoc|auto]. }
-    exists (G ++ X), (SV (VRec fs r)), ([] ++ K). split; [apply ext_snoc|].
+    exists (G ++ X), (SV (VRec (fields_of_lit fs r))), ([] ++ K). split; [apply ext_snoc|].
     apply (inv_pure root G c (SC (Rec fs) r) K (G ++ X) _ _ [] [] [] [] (stack c) K);
       auto using ext_snoc.
     all: cbn [ctrl stack hp].
@@ -800,7 +970,7 @@ Proof.
              [ unfold X; now rewrite !map_length
              | intros i c0 Ei; rewrite nth_error_map in Ei;
                destruct (nth_error fs i) as [fe|] eqn:Efe; cbn in Ei; inversion Ei; subst c0;
-               exists (snd fe), (fl ++ env), (ERec fs r); cbn; repeat split; auto ]
+               exists (snd fe), (locs_of fl ++ env), (ERec fs r); cbn; repeat split; auto ]
          | |- ctrl_rel _ _ _ => constructor; now constructor
          | |- linked _ _ => apply link_rec
          | |- _ => idtac
@@ -818,6 +988,19 @@ Proof.
          | |- linked _ _ => apply link_proj
          | |- _ => idtac
          end.
+  - (* Seq *)
+    destruct (ctrl_tm_inv _ _ _ _ ltac:(rewrite <- EC; apply (inv_ctrl _ _ _ _ _ I)) eq_refl) as (r & -> & ER).
+    inversion E; subst c'; clear E.
+    exists G, (SC t1 r), ([SSeq t2 r] ++ K). split; [apply ext_refl|].
+    apply (inv_pure root G c (SC (Seq t1 t2) r) K G _ _ [] [] [FSeq (CTm t2, env)] [SSeq t2 r] (stack c) K);
+      auto using ext_refl.
+    all: cbn [ctrl stack hp].
+    all: lazymatch goal with
+         | |- Forall2 _ _ _ => constructor; [now constructor|constructor]
+         | |- ctrl_rel _ _ _ => now constructor
+         | |- linked _ _ => apply link_seq
+         | |- _ => idtac
+         end.
   - discriminate.
 Qed.
 
@@ -825,17 +1008,17 @@ Qed.
 
 Lemma ret_done_value c : ret c = Done -> stack c = [].
 Proof.
-  unfold ret. destruct (stack c) as [|[a|l|o c2|o v1|t e|f] s]; auto; try discriminate.
-  - destruct (binop_eval o v1 (ctrl c)); discriminate.
+  unfold ret_gen. destruct (stack c) as [|[a|l|o c2|o v1|t e|f|sq] s]; auto; try discriminate.
+  - destruct (binop_eval false o v1 (ctrl c) (hp c)); discriminate.
   - destruct (fst (ctrl c)) as [[]|]; try discriminate. destruct b; discriminate.
-  - destruct (fst (ctrl c)) as [|fl]; try discriminate. destruct (assoc fl f); discriminate.
+  - destruct (fst (ctrl c)) as [|fl]; try discriminate. destruct (assoc fl f) as [[? ?]|]; discriminate.
 Qed.
 
 Lemma step_done_value c : step c = Done -> is_value (ctrl c) = true.
 Proof.
-  unfold step, is_value. destruct (fst (ctrl c)) as [t|fl]; auto.
+  unfold step_gen, is_value. destruct (fst (ctrl c)) as [t|fl]; auto.
   destruct t; auto; try discriminate.
-  - destruct (assoc (snd (ctrl c)) x); try discriminate. unfold enter.
+  - destruct (assoc (snd (ctrl c)) x) as [l|]; try discriminate. unfold enter.
     destruct (nth_error (hp c) l) as [cl|]; try discriminate.
     destruct (st cl); try discriminate. destruct (no_update_needed (cur cl)); discriminate.
 Qed.
@@ -864,17 +1047,24 @@ Lemma ret_raise root G c v K e :
   ret c = Raise e ->
   e <> EInfRec /\ exists n0, sden (SV v) K n0 = Err e.
 Proof.
-  intros I VR NL E. unfold ret in E. destruct (stack c) as [|fr S0] eqn:ES; try discriminate.
+  intros I VR NL E. unfold ret_gen in E. destruct (stack c) as [|fr S0] eqn:ES; try discriminate.
   destruct (stack_cons_inv _ _ _ _ ltac:(rewrite <- ES; apply (inv_stack _ _ _ _ _ I))) as (k & K0 & -> & FR & FS).
-  destruct fr as [a|l|o c2|o v1c|ct ce|f]; try discriminate.
+  destruct fr as [a|l|o c2|o v1c|ct ce|f|sq]; try discriminate.
   - (* not a function *)
     inversion E; subst e. split; [discriminate|]. inversion FR; subst. exists 0.
     rewrite sden_SV. cbn. destruct VR; auto.
     exfalso. eapply NL; reflexivity.
   - inversion FR; subst.
-    match goal with H : val_rel G v1c ?v0 |- _ => pose proof (binop_rel G o v1c v0 (ctrl c) v H VR) as BR end.
-    destruct (binop_eval o v1c (ctrl c)); inversion E; subst e. split; [discriminate|].
-    exists 0. rewrite sden_SV. cbn. now rewrite BR.
+    match goal with H : val_rel G v1c ?v0 |- _ =>
+      pose proof (binop_rel G (hp c) o v1c v0 (ctrl c) v (inv_heap _ _ _ _ _ I) H VR) as BR end.
+    destruct (binop_eval false o v1c (ctrl c) (hp c)) as [rr cells|e0] eqn:EB; inversion E; subst e0.
+    split.
+    + (* a primitive operation never reports an infinite recursion *)
+      intros ->. unfold binop_eval in EB.
+      destruct o; destruct (fst v1c) as [[]|]; destruct (fst (ctrl c)) as [[]|]; try discriminate;
+        repeat match type of EB with (if ?x then _ else _) = _ => destruct x end; try discriminate;
+        destruct (merge_center false (hp c) (length (hp c)) (center_part fs fs0)); discriminate.
+    + exists 0. rewrite sden_SV. cbn. now rewrite BR.
   - inversion FR; subst.
     assert (T : e = ETypeErr /\ (forall b, v <> VBool b)).
     { destruct VR; cbn in E; try (inversion E; split; [auto|intros; discriminate]).
@@ -882,12 +1072,12 @@ Proof.
     destruct T as [-> T]. split; [discriminate|]. exists 0. rewrite sden_SV. cbn.
     destruct v as [|b| |]; auto. exfalso. eapply T; eauto.
   - inversion FR; subst.
-    destruct VR as [n env|b env|x b env r ER|fl env defs r F]; cbn in E.
+    destruct VR as [n env|b env|x b env r ER|fl env fs F]; cbn in E.
     + inversion E; subst e. split; [discriminate|]. exists 1. reflexivity.
     + inversion E; subst e. split; [discriminate|]. exists 1. reflexivity.
     + inversion E; subst e. split; [discriminate|]. exists 1. reflexivity.
-    + pose proof (fields_assoc G defs r f fl defs F) as FA.
-      destruct (assoc fl f); inversion E; subst e. split; [discriminate|]. exists 1.
+    + pose proof (fields_assoc G f fl fs F) as FA.
+      destruct (assoc fl f) as [[l bb]|]; inversion E; subst e. split; [discriminate|]. exists 1.
       rewrite sden_SV. cbn. now rewrite FA.
 Qed.
 
@@ -905,7 +1095,7 @@ Proof.
   { intros V NL R. destruct (inv_norm _ _ _ _ _ I V) as (v & VR & I').
     destruct (ret_raise _ _ _ _ _ _ I' VR NL R) as (NE & n0 & E0). split; [congruence|].
     intros _. eapply root_error; [apply (inv_root _ _ _ _ _ I')|exact E0]. }
-  unfold step in E. destruct (ctrl c) as [code env] eqn:EC. cbn [fst snd] in E.
+  unfold step_gen in E. destruct (ctrl c) as [code env] eqn:EC. cbn [fst snd] in E.
   destruct code as [t|fl]; [|apply RET; auto; intros; discriminate].
   destruct t; try (apply RET; auto; intros; discriminate); try discriminate.
   - (* Var *)
@@ -936,7 +1126,7 @@ Proof.
       eapply root_error; [apply (inv_root _ _ _ _ _ I)|]. instantiate (1 := 1).
       unfold sden. cbn [sctrl_eval]. rewrite seval_var, ER. reflexivity.
   - (* Lam *)
-    destruct (stack c) as [|[a| | | | |] s] eqn:ES; try discriminate;
+    destruct (stack c) as [|[a| | | | | |] s] eqn:ES; try discriminate;
       (apply RET; auto; intros; discriminate).
   - (* Fail *)
     inversion E; subst e; clear E. split; [discriminate|intros _].
@@ -1026,11 +1216,11 @@ Proof.
   intros H. exists (SC (Var "%") (ECons "%" t r ENil)). constructor. now apply env_rel_ptr.
 Qed.
 
-Lemma fields_rel_in G defs0 r fl defs f l :
-  fields_rel G defs0 r fl defs -> In (f, l) fl -> exists e, nth_error G l = Some (e, ERec defs0 r).
+Lemma fields_rel_in G fl fs f l b :
+  fields_rel G fl fs -> In (f, (l, b)) fl -> exists e re, nth_error G l = Some (e, re).
 Proof.
-  induction 1 as [|a b fl' defs' [H1 H2] F IH]; intros I; [destruct I|].
-  destruct I as [->|I]; eauto.
+  induction 1 as [|a0 [f0 [[e0 re0] b0]] fl' fs' (H1 & H2 & H3) F IH]; intros I; [destruct I|].
+  destruct I as [->|I]; eauto. cbn in H3. eauto.
 Qed.
 
 (* the drivers of `eval_full` and `:query` keep the heap sound *)
@@ -1061,7 +1251,7 @@ Proof.
     { intros a X. inversion X; subst. fin4 G1. }
     destruct w as [wc we]. cbn [fst] in E. destruct wc as [t|fl].
     + destruct t; try (eapply base; exact E).
-    + clear base. inversion VR as [| | |fl0 env0 defs rr FRl]; subst.
+    + clear base. inversion VR as [| | |fl0 env0 fs FRl]; subst.
       match type of E with map_res _ (?F fl (hp cf) k0) = _ => set (fields := F) in * end.
       assert (FL : forall fl0 G2 h1 k1 r1 fr1 h2 k2,
                  (forall f l, In (f, l) fl0 -> In (f, l) fl) ->
@@ -1069,7 +1259,7 @@ Proof.
                  fields fl0 h1 k1 = (r1, (fr1, h2, k2)) ->
                  exists G3, ext G2 G3 /\ heap_ok G3 h2 /\ bh_inv fr1 h2 /\ (forall a, r1 = Val a -> fr1 = [])).
       { clear E. intros fl0.
-        induction fl0 as [|[f l] fl0 IHfl]; intros G2 h1 k1 r1 fr1 h2 k2 SUB X2 H2 C2 E1; cbn in E1.
+        induction fl0 as [|[f [l bb]] fl0 IHfl]; intros G2 h1 k1 r1 fr1 h2 k2 SUB X2 H2 C2 E1; cbn in E1.
         - inversion E1; subst. fin4 G2.
         - destruct (fields fl0 h1 k1) as [r2 [[fr2 h3] k3]] eqn:E2.
           destruct (IHfl G2 h1 k1 r2 fr2 h3 k3) as (G3 & X3 & H3 & B3 & V3); auto.
@@ -1079,9 +1269,9 @@ Proof.
           2:{ inversion E1; subst. fin4 G3. }
           rewrite (V3 ds eq_refl) in B3. apply bh_inv_nil in B3.
           destruct (force d k3 h3 (ptr l)) as [r4 [[fr4 h4] k4]] eqn:E4.
-          destruct (fields_rel_in _ _ _ _ _ f l FRl (SUB f l (or_introl eq_refl))) as (ef & GL).
+          destruct (fields_rel_in _ _ _ f l bb FRl (SUB f (l, bb) (or_introl eq_refl))) as (ef & re & GL).
           destruct (IH _ G3 _ _ _ _ _ _ H3 B3
-                       (ctrl_rel_ptr G3 l ef (ERec defs rr) (ext_nth _ _ _ _ (ext_trans _ _ _ X2 X3) GL)) E4)
+                       (ctrl_rel_ptr G3 l ef re (ext_nth _ _ _ _ (ext_trans _ _ _ X2 X3) GL)) E4)
             as (G4 & X4 & H4 & B4 & V4).
           destruct r4 as [dv|e|]; cbn in E1; inversion E1; subst; fin4 G4.
           intros a _. eapply V4; eauto. }
@@ -1104,11 +1294,11 @@ Proof.
   - inversion E; subst. fin3q G1.
   - destruct RO as (v & m & VR & _). destruct w as [wc we]. cbn [fst] in E. destruct wc as [t|fl].
     + inversion E; subst. fin3q G1.
-    + inversion VR as [| | |fl0 env0 defs rr FRl]; subst.
-      pose proof (fields_assoc G1 defs rr f fl defs FRl) as FA.
-      destruct (assoc fl f) as [l|].
-      * destruct FA as (ef & _ & GL).
-        destruct (IH _ G1 _ _ _ _ _ _ H1 C1 (ctrl_rel_ptr G1 l ef _ GL) E) as (G2 & X2 & H2 & B2).
+    + inversion VR as [| | |fl0 env0 fs FRl]; subst.
+      pose proof (fields_assoc G1 f fl fs FRl) as FA.
+      destruct (assoc fl f) as [[l bb]|].
+      * destruct FA as ([ef re] & _ & GL).
+        destruct (IH _ G1 _ _ _ _ _ _ H1 C1 (ctrl_rel_ptr G1 l ef re GL) E) as (G2 & X2 & H2 & B2).
         fin3q G2.
       * inversion E; subst. fin3q G1.
 Qed.
@@ -1153,7 +1343,7 @@ Proof.
     destruct RO as (v & m & VR & _).
     destruct w as [wc we]. cbn [fst] in E. destruct wc as [tw|fl].
     + destruct tw; cbn in E; (eapply FIN; [exact X1|exact HO1|exact E]).
-    + inversion VR as [| | |fl0 env0 defs rr FRl]; subst.
+    + inversion VR as [| | |fl0 env0 fs FRl]; subst.
       match type of E with context [?F fl (hp cf) k0] => set (fields := F) in * end.
       assert (FL : forall fl0 G3 h3 k3 r3 h4 k4,
                  (forall f lf, In (f, lf) fl0 -> In (f, lf) fl) ->
@@ -1161,10 +1351,10 @@ Proof.
                  fields fl0 h3 k3 = (r3, (h4, k4)) ->
                  exists G4, ext G3 G4 /\ heap_ok G4 h4).
       { clear E FIN. intros fl0.
-        induction fl0 as [|[f lf] fl0 IHfl]; intros G3 h3 k3 r3 h4 k4 SUB X3 H3 C3 E3; cbn in E3.
+        induction fl0 as [|[f [lf bb]] fl0 IHfl]; intros G3 h3 k3 r3 h4 k4 SUB X3 H3 C3 E3; cbn in E3.
         - inversion E3; subst. exists G3. split; auto using ext_refl.
         - destruct (spine_with true unwind d k3 h3 lf) as [r5 [h5 k5]] eqn:E5.
-          destruct (fields_rel_in _ _ _ _ _ f lf FRl (SUB f lf (or_introl eq_refl))) as (ef & GLf).
+          destruct (fields_rel_in _ _ _ f lf bb FRl (SUB f (lf, bb) (or_introl eq_refl))) as (ef & ref & GLf).
           destruct (IH _ G3 _ _ _ _ _ _ _ H3 C3 (ext_nth _ _ _ _ X3 GLf) E5) as (G5 & X5 & H5).
           destruct (spine_good _ _ _ _ _ _ _ C3 E5) as [C5 _].
           destruct r5 as [dv|e|]; try (inversion E3; subst; exists G5; split; auto; fail).
@@ -1248,14 +1438,14 @@ Proof. rewrite sess_run_fst. apply (sess_fold_sinv h [] _ sinv_empty). Qed.
 
 (* ---------------------------------------------------------------- the property *)
 
-Lemma fields_rel_names G d0 r fl defs : fields_rel G d0 r fl defs -> map fst fl = map fst defs.
+Lemma fields_rel_names G fl fs : fields_rel G fl fs -> map fst fl = map fst fs.
 Proof.
-  unfold fields_rel. induction 1 as [|a b fl' defs' [H1 H2] F IH]; cbn; auto. f_equal; assumption.
+  unfold fields_rel. induction 1 as [|a b fl' fs' (H1 & H2 & H3) F IH]; cbn; auto. f_equal; assumption.
 Qed.
 
 Lemma obs_rel G w v : val_rel G w v -> obs_of w = sobs v.
 Proof.
-  destruct 1 as [| | |fl env defs r F]; cbn; auto. f_equal. eapply fields_rel_names; eauto.
+  destruct 1 as [| | |fl env fs F]; cbn; auto. f_equal. eapply fields_rel_names; eauto.
 Qed.
 
 Lemma spec_run_oof defs e :
